@@ -18,6 +18,10 @@ CONSTANTS
   ReadNotCounted = FALSE
   SqueezedFits = TRUE
   ReopenClampsMap = FALSE
+  LiveSized = FALSE
+  Page = 2
+  PageBySkipCur = FALSE
+  PageFreshSnap = FALSE
   BatchMax = 1
   MaxOps = 4
   WithReads = FALSE
